@@ -45,7 +45,8 @@ static void h_addrandinit(AmplExports *, RandSeedSetter s, void *v) {
   g_seed_setter = s; g_seed_data = v;
   s(v, 1);            // ASL calls the setter at registration time with the current seed
 }
-static void h_atreset(AmplExports *, Exitfunc *, void *) {}
+static Exitfunc *g_reset_fn = nullptr; static void *g_reset_data = nullptr;
+static void h_atreset(AmplExports *, Exitfunc *f, void *d) { g_reset_fn = f; g_reset_data = d; }
 static Char *h_tempmem(TMInfo *, size_t n) { void *p = calloc(1, n ? n : 1); g_temp.push_back(p); return p; }
 static void free_temp() { for (void *p : g_temp) free(p); g_temp.clear(); }
 
@@ -156,6 +157,7 @@ static bool call(const Reg &r, const std::vector<double> &x, int mode, const cha
   if (g_flush) { printf("begin %s\n", replay_of(r, x, mode, dig).c_str()); fflush(stdout); }
   Out o2;
   raw_call(r, x, mode, dig, SENT1, o);
+  if (o.err == E_TIMEOUT || o.err == E_CRASH) return true;      // no point in waiting for the watchdog twice
   raw_call(r, x, mode, dig, SENT2, o2);
   int n = r.nargs, nh = n * (n + 1) / 2;
   bool det = o.err == o2.err && same(o.ret, o2.ret) && o.msg == o2.msg;
@@ -259,7 +261,53 @@ template <class G> static bool ridders(G g, double x, double h, double &res, dou
   return std::isfinite(res) && std::isfinite(err);
 }
 
-struct NumStats { long judged = 0, skipped_eval = 0, skipped_noconv = 0, skipped_range = 0, agree = 0; } g_num1, g_num2;
+struct NumStats { long judged = 0, skipped_eval = 0, skipped_noconv = 0, skipped_range = 0, agree = 0, onesided = 0; } g_num1, g_num2;
+
+
+// one-sided variant for points on the edge of the domain (values exist on one side only, e.g. gsl_sf_bessel_jl at x = 0):
+// D(h) = s(-3 f(x) + 4 f(x + s h) - f(x + 2 s h)) / (2h) = f'(x) + c2 h^2 + c3 h^3 + ...  extrapolated with factors CON^2, CON^3, ...
+template <class G> static bool ridders1(G g, double x, double h, int sgn, double &res, double &err) {
+  const int NT = 8; const double CON = 1.4;
+  double a[NT][NT], f0, f1, f2;
+  if (!g(x, f0)) return false;
+  auto D = [&](double hh, double &d) { if (!g(x + sgn * hh, f1) || !g(x + 2 * sgn * hh, f2)) return false; d = sgn * (-3 * f0 + 4 * f1 - f2) / (2 * hh); return true; };
+  if (!D(h, a[0][0])) return false;
+  err = HUGE_VAL; res = a[0][0];
+  for (int i = 1; i < NT; ++i) {
+    h /= CON;
+    if (!D(h, a[0][i])) return false;
+    double fac = CON * CON;
+    for (int j = 1; j <= i; ++j) {
+      a[j][i] = (a[j - 1][i] * fac - a[j - 1][i - 1]) / (fac - 1);
+      fac *= CON;
+      double errt = std::max(fabs(a[j][i] - a[j - 1][i]), fabs(a[j][i] - a[j - 1][i - 1]));
+      if (errt <= err) { err = errt; res = a[j][i]; }
+    }
+    if (fabs(a[i][i] - a[i - 1][i - 1]) >= 2.0 * err) break;
+  }
+  return std::isfinite(res) && std::isfinite(err);
+}
+
+template <class G> static int judge_onesided(G g, double x0, double h0, double an, NumStats &st, double &num, double &nerr) {
+  double f0, fp, fm, hs = h0 / 16;
+  if (!g(x0, f0)) { st.skipped_eval++; return 0; }
+  bool okp = g(x0 + hs, fp) && g(x0 + 2 * h0, fp), okm = g(x0 - hs, fm) && g(x0 - 2 * h0, fm);
+  if (okp == okm) { st.skipped_eval++; return 0; }
+  int sgn = okp ? 1 : -1;
+  double r1, e1, r2, e2, f1;
+  if (!ridders1(g, x0, h0, sgn, r1, e1) || !ridders1(g, x0, 0.37 * h0, sgn, r2, e2) || !g(x0 + sgn * hs, f1)) { st.skipped_eval++; return 0; }
+  double q = sgn * (f1 - f0) / hs;
+  double mag = std::max(std::max(fabs(r1), fabs(r2)), fabs(an));
+  double conv = std::max(e1, e2) + fabs(r1 - r2);
+  num = r2; nerr = conv;
+  double floor_ = 256 * DBL_EPSILON * std::max(fabs(f0), fabs(f1)) / hs;
+  double rmag = std::max(fabs(r1), fabs(r2)), fscale = std::max(fabs(f0), fabs(f1)) / hs;
+  if (!(conv <= 1e-3 * rmag || rmag <= 1e-6 * fscale)) { st.skipped_noconv++; return 0; }
+  if (f1 == f0 || mag <= 100 * floor_ || !(conv <= 1e-5 * mag) || !(fabs(q - r2) <= 0.05 * mag)) { st.skipped_noconv++; return 0; }
+  st.judged++; st.onesided++;
+  if (fabs(an - r2) <= 1e-3 * mag + 1000 * conv + 100 * floor_) { st.agree++; return 1; }
+  return -1;
+}
 
 // compare analytic value `an` with the numerical derivative of g at x0.
 // Judged only when (a) x0 is 0 or 1e-6 <= |x0| <= 1e3, (b) two Ridders extrapolations started from different
@@ -271,7 +319,7 @@ template <class G> static int judge(G g, double x0, double an, NumStats &st, dou
   if (!(x0 == 0 || (ax >= 1e-6 && ax <= 1e3)) || !std::isfinite(an)) { st.skipped_range++; return 0; }
   double h0 = x0 == 0 ? 1e-3 : std::min(0.02 * ax, 0.05);
   double r1, e1, r2, e2, f0, fp, fm;
-  if (!ridders(g, x0, h0, r1, e1) || !ridders(g, x0, 0.37 * h0, r2, e2)) { st.skipped_eval++; return 0; }
+  if (!ridders(g, x0, h0, r1, e1) || !ridders(g, x0, 0.37 * h0, r2, e2)) return judge_onesided(g, x0, h0, an, st, num, nerr);
   double hs = h0 / 16;
   if (!g(x0, f0) || !g(x0 + hs, fp) || !g(x0 - hs, fm)) { st.skipped_eval++; return 0; }
   if (fp == f0 && fm == f0) { st.skipped_noconv++; return 0; }   // locally constant in double precision: nothing to difference
@@ -282,6 +330,10 @@ template <class G> static int judge(G g, double x0, double an, NumStats &st, dou
   // resolution of a difference quotient of doubles: values that saturate (erf(7.5) == 1) give 0 +- floor
   double floor_ = 256 * DBL_EPSILON * std::max(std::max(fabs(f0), fabs(fp)), fabs(fm)) / hs;
   if (mag <= 100 * floor_) { st.skipped_noconv++; return 0; }
+  // the estimate must also be converged on its own scale (or be numerically zero on the scale |f|/h): near a genuine
+  // singularity a huge analytic value would otherwise dominate `mag` and make garbage look converged
+  double rmag = std::max(fabs(r1), fabs(r2)), fscale = std::max(std::max(fabs(f0), fabs(fp)), fabs(fm)) / hs;
+  if (!(conv <= 1e-3 * rmag || rmag <= 1e-6 * fscale)) { st.skipped_noconv++; return 0; }
   if (!(conv <= 1e-6 * mag) || !(fabs(fwd - bwd) <= 0.05 * mag) || !(fabs(0.5 * (fwd + bwd) - r2) <= 0.05 * mag)) { st.skipped_noconv++; return 0; }
   st.judged++;
   if (fabs(an - r2) <= 1e-3 * mag + 1000 * conv + 100 * floor_) { st.agree++; return 1; }
@@ -397,6 +449,174 @@ static void ub_check(const Reg &r, const std::vector<double> &x, int mode, const
   }
 }
 
+
+// one fully observed call: determinism, UB attribution, NaN / unset-slot oracle, line for the Lean correspondence
+static bool observe(const Reg &r, const std::vector<double> &x, int mode, const char *dig, const std::vector<char> &kinds, Out &o) {
+  call(r, x, mode, dig, o);
+  if (o.err == E_TIMEOUT || o.err == E_CRASH) { oracle_nan(r, x, mode, dig, o); return false; }
+  ub_check(r, x, mode, dig);
+  oracle_nan(r, x, mode, dig, o);
+  emit(r, x, mode, dig, o, kinds);
+  g_hist[std::string("err_") + errname[o.err]]++;
+  g_hist[std::string("mode_") + "vdh"[mode]]++;
+  return true;
+}
+
+static std::vector<double> base_point(const std::vector<char> &kinds, int base) {
+  std::vector<double> x(kinds.size());
+  for (size_t k = 0; k < kinds.size(); ++k) x[k] = kinds[k] == 'r' ? (base ? 1.3 + 0.45 * k : 0.6 + 0.17 * k) : (base ? 3 : 2);
+  return x;
+}
+
+// Deterministic sweeps, identical at every seed, run for EVERY registered function:
+//  S1 every constness vector (all 2^n subsets of constant arguments) x {derivs, derivs+hes} at regular points
+//  S2 NaN / +inf / -inf in each argument position x all three modes
+//  S3 zeros: all arguments zero, every pair zero, every single zero x all three modes (+ numerical check)
+//  S4 small integer orders {0,1,2,3,-1,-2} x special abscissae {0, 0.5, 1, -1, 1e8} x modes (+ numerical check)
+//  S5 INT_MAX / INT_MIN orders with derivatives requested (check_deriv_arg boundaries)
+//  S6 0.5 / 2.5 / -1.5 / 1e10 in every integer-typed position;  S7 +-1e8 in every real position
+static std::map<std::string, long> g_dig_patterns, g_dig_patterns_noerr;
+static bool troubles_out(const Reg &) { g_hist["functions_whose_sweeps_were_cut_short"]++; return false; }
+static bool sweeps(const Reg &r, const std::vector<char> &kinds, const std::vector<char> &ddig, bool has_derivs) {
+  int n = r.nargs;
+  bool numeric = has_derivs && !(r.type & FUNCADD_RANDOM_VALUED);
+  Out o;
+  int troubles = 0;      // calls that did not come back (watchdog / fatal signal): skip the point, give up after three
+  // S2a NaN in each position (check_args / check_result must turn it into an error in every mode)
+  for (int i = 0; i < n; ++i) {
+    std::vector<double> x = base_point(kinds, 0);
+    x[i] = NAN;
+    for (int mode = 0; mode <= 2; ++mode) {
+      if (!observe(r, x, mode, nullptr, kinds, o) && ++troubles > 2) return troubles_out(r);
+      if (mode && has_derivs && !observe(r, x, mode, ddig.data(), kinds, o) && ++troubles > 2) return troubles_out(r);
+      g_hist["sweep_nan_calls"]++;
+    }
+  }
+  // S1
+  int nbase = n >= 6 ? 1 : 2;
+  for (int base = 0; base < nbase; ++base) {
+    std::vector<double> x = base_point(kinds, base);
+    for (int m = 0; m < (1 << n); ++m) {
+      std::vector<char> d(n + 1, 0);
+      for (int i = 0; i < n; ++i) d[i] = (m >> i) & 1;
+      for (int mode = 1; mode <= 2; ++mode) {
+        if (!observe(r, x, mode, d.data(), kinds, o) && ++troubles > 2) return troubles_out(r);
+        g_hist["sweep_dig_pattern_calls"]++;
+        g_dig_patterns[r.name]++;
+        if (o.err == E_NONE) { g_dig_patterns_noerr[r.name]++; g_hist["sweep_dig_pattern_calls_without_error"]++; }
+      }
+    }
+    for (int mode = 1; mode <= 2; ++mode) if (!observe(r, x, mode, nullptr, kinds, o) && ++troubles > 2) return troubles_out(r);
+  }
+  // S6 non-representable values in every integer-typed position; S7 very large reals in every real position
+  static const double BADINT[] = {0.5, 2.5, -1.5, 1e10};
+  static const double LARGE[] = {1e8, -1e8};
+  for (int i = 0; i < n; ++i) {
+    bool isint = kinds[i] != 'r';
+    for (int k = 0; k < (isint ? 4 : 4); ++k) {
+      std::vector<double> x = base_point(kinds, isint ? 0 : k / 2);
+      x[i] = isint ? BADINT[k] : LARGE[k % 2];
+      for (int mode = 0; mode <= 1; ++mode) {
+        if (!observe(r, x, mode, mode && has_derivs ? ddig.data() : nullptr, kinds, o) && ++troubles > 2) return troubles_out(r);
+        g_hist[isint ? "sweep_bad_integer_calls" : "sweep_large_real_calls"]++;
+      }
+    }
+  }
+  // S3
+  for (int i = -1; i < n; ++i) for (int j = i; j < n; ++j) {
+    if (i == -1 && j != -1) continue;
+    std::vector<double> x = base_point(kinds, 0);
+    if (i == -1) std::fill(x.begin(), x.end(), 0.0); else { x[i] = 0; x[j] = 0; }
+    for (int mode = 0; mode <= 2; ++mode) {
+      const char *dg = mode && has_derivs ? ddig.data() : nullptr;
+      if (!observe(r, x, mode, dg, kinds, o) && ++troubles > 2) return troubles_out(r);
+      g_hist["sweep_zero_calls"]++;
+      if (mode && numeric && o.err == E_NONE) {
+        Out q; raw_call(r, x, mode, dg, SENT1, q);
+        if (q.err == E_NONE) numeric_checks(r, x, kinds, dg, q, mode == 2);
+      }
+    }
+  }
+  // S4
+  static const double ORDERS[] = {0, 1, 2, 3, -1, -2};
+  static const double ABSC[] = {0.0, 0.5, 1.0, -1.0, 1e8};
+  for (int j = 0; j < n; ++j) {
+    if (kinds[j] == 'r') continue;
+    for (double ov : ORDERS) {
+      if (kinds[j] == 'u' && ov < 0) continue;
+      for (int i = -1; i < n; ++i) {
+        if (i >= 0 && kinds[i] != 'r') continue;
+        for (double av : ABSC) {
+          if (i == -1 && av != 0.0) continue;       // i == -1: all reals at their base value
+          std::vector<double> x = base_point(kinds, 0);
+          x[j] = ov;
+          if (i >= 0) x[i] = av;
+          for (int mode = 0; mode <= 2; ++mode) {
+            const char *dg = mode && has_derivs ? ddig.data() : nullptr;
+            if (!observe(r, x, mode, dg, kinds, o) && ++troubles > 2) return troubles_out(r);
+            g_hist["sweep_small_order_calls"]++;
+            if (mode && numeric && o.err == E_NONE) {
+              Out q; raw_call(r, x, mode, dg, SENT1, q);
+              if (q.err == E_NONE) numeric_checks(r, x, kinds, dg, q, mode == 2);
+            }
+          }
+        }
+      }
+    }
+    // S5
+    static const double EXTREME[] = {2147483647.0, -2147483648.0};
+    if (kinds[j] == 'i' && has_derivs) for (double ov : EXTREME) {
+      std::vector<double> x = base_point(kinds, 0);
+      x[j] = ov;
+      for (int mode = 2; mode >= 1; --mode) {
+        if (!observe(r, x, mode, ddig.data(), kinds, o) && ++troubles > 2) return troubles_out(r);
+        g_hist["sweep_extreme_order_calls"]++;
+      }
+    }
+  }
+  // S2
+  static const double NONFINITE[] = {HUGE_VAL, -HUGE_VAL};
+  for (int i = 0; i < n; ++i) for (double v : NONFINITE) {
+    std::vector<double> x = base_point(kinds, 0);
+    x[i] = v;
+    for (int mode = 0; mode <= 2; ++mode) {
+      if (!observe(r, x, mode, nullptr, kinds, o) && ++troubles > 2) return troubles_out(r);
+      if (mode && has_derivs && !observe(r, x, mode, ddig.data(), kinds, o) && ++troubles > 2) return troubles_out(r);
+      g_hist["sweep_nonfinite_calls"]++;
+    }
+  }
+  return troubles == 0;
+}
+
+// random-variate bindings: the seed AMPL hands to the library must matter (src/gsl/default.c keeps
+// gsl_rng_default_seed when it is already set) and equal seeds must give equal variates
+static void rng_seed_oracle(const Reg &r, const std::vector<char> &kinds) {
+  if (!(r.type & FUNCADD_RANDOM_VALUED) || !g_seed_setter) return;
+  std::vector<double> x = base_point(kinds, 0);
+  for (size_t k = 0; k < x.size(); ++k) if (kinds[k] == 'r') x[k] = 0.3 + 0.1 * k;
+  auto draw = [&](unsigned long seed, double out[4]) {
+    g_seed_setter(g_seed_data, seed);
+    for (int k = 0; k < 4; ++k) {
+      std::vector<double> ra(x); ra.resize(r.nargs + 1);
+      arglist al; memset(&al, 0, sizeof al);
+      al.n = r.nargs; al.nr = r.nargs; al.ra = ra.data(); al.AE = &g_ae; al.funcinfo = r.info;
+      out[k] = r.f(&al); free_temp();
+      if (al.Errmsg) return false;
+    }
+    return true;
+  };
+  double a[4], b[4], c[4];
+  if (!draw(777, a) || !draw(777, b) || !draw(424242, c)) return;
+  g_hist["rng_seed_checks"]++;
+  bool same_ab = true, same_ac = true;
+  for (int k = 0; k < 4; ++k) { if (!same(a[k], b[k])) same_ab = false; if (!same(a[k], c[k])) same_ac = false; }
+  if (!same_ab) g_find.add("rng-not-reproducible-with-equal-seed:" + r.name, replay_of(r, x, 0, nullptr));
+  bool continuous = r.name.find("bernoulli") == std::string::npos && r.name.find("binomial") == std::string::npos &&
+                    r.name.find("poisson") == std::string::npos && r.name.find("geometric") == std::string::npos &&
+                    r.name.find("pascal") == std::string::npos && r.name.find("logarithmic") == std::string::npos;
+  if (same_ac && continuous) g_find.add("rng-seed-ignored:" + r.name, replay_of(r, x, 0, nullptr) + " | seeds 777 and 424242 give the same four variates");
+}
+
 static void exercise(const Reg &r, bool thorough, int npoints) {
   int n = r.nargs;
   std::vector<char> kinds = discover_kinds(r);
@@ -409,7 +629,9 @@ static void exercise(const Reg &r, bool thorough, int npoints) {
          for (int i = 0; i < n; ++i) { std::vector<char> d(n, 0); d[i] = 1; digs.push_back(d); } }
   if (has_derivs && std::find(digs.begin(), digs.end(), ddig) == digs.end()) digs.push_back(ddig);
   clock_t t_start = clock();
-  bool trouble = false;
+  bool trouble = !sweeps(r, kinds, ddig, has_derivs);
+  rng_seed_oracle(r, kinds);
+  t_start = clock();
   if (has_derivs && !(r.type & FUNCADD_RANDOM_VALUED)) {      // fixed grid: same points at every seed
     static const double SPECIAL[] = {0.0, 1e-5, -1e-5, 1e-3, 0.5, 1.0, -1.0, 2.0, -0.5, 7.5, 100.0};
     for (int i = 0; i < n; ++i) {
@@ -508,6 +730,22 @@ int main(int argc, char **argv) {
     printf("no such registered function: %s\n", argv[2]);
     return 2;
   }
+  if (argc >= 2 && !strcmp(argv[1], "rngenv")) {
+    // what the random-variate bindings return for seed 0 (GSL_RNG_SEED consulted) and seed 5 (not consulted),
+    // under whatever GSL_RNG_TYPE / GSL_RNG_SEED the caller put into the environment (src/gsl/default.c)
+    for (auto &r : g_regs) if (r.name == "gsl_ran_ugaussian" && g_seed_setter) {
+      unsigned long seeds[2] = {0, 5};
+      for (unsigned long sd : seeds) {
+        g_seed_setter(g_seed_data, sd);
+        printf("seed %lu:", sd);
+        for (int k = 0; k < 3; ++k) { arglist al; memset(&al, 0, sizeof al); double ra[1] = {0}; al.ra = ra; al.AE = &g_ae; al.funcinfo = r.info;
+          double v = r.f(&al); free_temp(); printf(" %a", v); }
+        printf("\n");
+      }
+    }
+    printf("DONE\n");
+    return 0;
+  }
   if (argc < 4) { fprintf(stderr, "usage: h_gsl <quick|thorough> <seed> <outdir> [flush] [only=name]\n"); return 2; }
   setvbuf(stdout, nullptr, _IOLBF, 0);
   bool thorough = !strcmp(argv[1], "thorough");
@@ -531,10 +769,14 @@ int main(int argc, char **argv) {
     if (el > 0.5) printf("SLOW %s %.2f\n", r.name.c_str(), el);
   }
   if (g_calls_out) fclose(g_calls_out);
+  if (g_reset_fn) { g_reset_fn(g_reset_data); g_reset_fn(g_reset_data); g_hist["at_reset_called"] += 2; }     // what ASL does when the library is unloaded
+  { long all = 0, none = 0; for (auto &kv : g_dig_patterns) { ++all; if (!g_dig_patterns_noerr.count(kv.first)) ++none; }
+    for (auto &kv : g_dig_patterns) if (!g_dig_patterns_noerr.count(kv.first)) printf("NODERIVSWEEP %s\n", kv.first.c_str());
+    g_hist["functions_swept_over_all_dig_patterns"] = all; g_hist["functions_with_no_error_free_derivative_call_in_dig_sweep"] = none; }
   for (auto &f : g_find.first) printf("FINDING %s | %ld | %s\n", f.first.c_str(), g_find.count[f.first], f.second.c_str());
   printf("STAT functions %d\nSTAT calls %ld\n", nreal, g_calls);
-  printf("STAT num1 judged=%ld agree=%ld skipped_eval=%ld skipped_noconv=%ld skipped_range=%ld\n", g_num1.judged, g_num1.agree, g_num1.skipped_eval, g_num1.skipped_noconv, g_num1.skipped_range);
-  printf("STAT num2 judged=%ld agree=%ld skipped_eval=%ld skipped_noconv=%ld skipped_range=%ld\n", g_num2.judged, g_num2.agree, g_num2.skipped_eval, g_num2.skipped_noconv, g_num2.skipped_range);
+  printf("STAT num1 judged=%ld agree=%ld skipped_eval=%ld skipped_noconv=%ld skipped_range=%ld onesided=%ld\n", g_num1.judged, g_num1.agree, g_num1.skipped_eval, g_num1.skipped_noconv, g_num1.skipped_range, g_num1.onesided);
+  printf("STAT num2 judged=%ld agree=%ld skipped_eval=%ld skipped_noconv=%ld skipped_range=%ld onesided=%ld\n", g_num2.judged, g_num2.agree, g_num2.skipped_eval, g_num2.skipped_noconv, g_num2.skipped_range, g_num2.onesided);
   for (auto &h : g_hist) printf("HIST %s %ld\n", h.first.c_str(), h.second);
   printf("DONE\n");
   return 0;
